@@ -74,11 +74,11 @@ func init() {
 
 	register(&core.Rule{ID: "C13.3", Prop: "C13", MinSites: 3,
 		Desc: "Enqueue returns only after the successful link CAS and exactly one length+1 in the same retry iteration; Dequeue returns a task only after the successful head CAS and exactly one length-1, and nil only after head==tail, next==nil, head re-validated and no length change",
-		Run: runC13_3})
+		Run:  runC13_3})
 
 	register(&core.Rule{ID: "C13.4", Prop: "C13", MinSites: 1,
 		Desc: "the task returned by Dequeue is the value field of the node installed as new head, read before the head CAS",
-		Run: runC13_4})
+		Run:  runC13_4})
 }
 
 // lengthDelta returns the constant delta of atomic.AddInt32(&q.length, k) calls in n, and the number of such calls.
